@@ -3,12 +3,12 @@ ID = "C03"
 LEVEL = "model_checking"
 TECHNIQUE = "CBMC bounded symbolic execution of the real event_base_loop/event_process_active on a constructed base against a scheduler model; solver-chosen priorities and activation orders explored as an unmerged tree"
 UNITS = ["event.c", "evmap.c"]
-FUNCTIONS = []
-BOUNDS = ""
-OUT = ""
-TEXT = ""
-NOTE = ""
-ASSUMPTIONS = []
+FUNCTIONS = ['event_base_loop', 'event_process_active', 'event_process_active_single_queue', 'event_active', 'event_active_nolock_', 'event_active_later_', 'event_callback_activate_nolock_', 'event_callback_activate_later_nolock_', 'event_deferred_cb_schedule_', 'event_queue_make_later_events_active', 'event_base_loopbreak', 'event_base_loopcontinue', 'event_base_loopexit', 'event_base_once', 'event_once_cb', 'event_base_got_break', 'event_base_got_exit', 'event_priority_set']
+BOUNDS = "3 priorities; 3 user events activated in a solver-chosen order with solver-chosen priorities (54 combinations per obligation, U0's priority and X's enumerated: quick 1 setting + 3 extras, thorough all 9) + 1 extra event / deferred callback X; U0's callback performs one fixed action per obligation (none, loopbreak, loopcontinue, loopexit(NULL), event_active(X), event_active_later_(X), schedule deferred X); loop flags NONBLOCK / ONCE / 0 / NO_EXIT_ON_EMPTY; max_dispatch_callbacks 1 (thorough also 2) with limit_callbacks_after_prio; 2 event_base_loop calls"
+OUT = 'more than 4 callbacks; actions from more than one callback of a run; max_dispatch_time (time limit); the deferred-callback quota MAX_DEFERREDS_QUEUED (needs >32 callbacks); loopexit with a non-zero timeout (C01); internal events; threads'
+TEXT = "The recorded trace (which callback ran, after which poll) of the real loop equals a scheduler model written from the documented rules for every priority assignment and activation order: ascending priority, FIFO within a priority, one priority level per poll, break stops after the running callback and leaves the rest queued, continue / activation of a more urgent callback re-polls and restarts at the top, exit finishes the running pass and stops before the next poll, 'later' callbacks run after the next poll, max_dispatch_callbacks bounds callbacks per poll from limit_callbacks_after_prio on; return values, got_break/got_exit, and a second loop call that must deliver every callback still queued (nothing lost, each exactly once)."
+NOTE = "FINDING (obligation sched_defer_x_p1_x0 fails on the unchanged tree, replayed natively): a deferred callback of a more urgent priority scheduled from a running callback does not preempt the remaining callbacks of the running priority level (event_active() does).  Fix: fixes/C03-deferred-cb-priority-preemption.diff.  loopexit's 'after the current iteration' is modelled as implemented (one priority level per iteration)."
+ASSUMPTIONS = ['constructed event_base (env/evbase.h) with 3 priorities, no I/O reported by the back end', 'max_dispatch_callbacks/limit_callbacks_after_prio written into the base as event_base_new_with_config stores them', 'allocation does not fail', 'single thread']
 DESIGN_REF = "DESIGN.md §5 C03"
 _T = int(os.environ.get("VP_PROBE_T", "0"))
 _PIN = [sum([["--restrict-function-pointer", x] for x in (
